@@ -91,8 +91,27 @@ def translate_location_check():
             sites.append(tp.value)
         else:
             raise Untranslatable(f"trusted_path is not a literal at line {node.lineno}")
-    if len(sites) != 2:
-        raise Untranslatable(f"expected 2 template-driven fromPath sites in fileDatastore.py, found {len(sites)}")
+    # the two functions that name a NEW artifact must each obtain the location from the template either directly
+    # (`fromPath(template.format(ref), ...)`, the shape before a79f022) or through `_location_from_template` (a79f022)
+    wflag = _write_rule(tree)
+    fdfns = {f.name: f for cls in ast.walk(tree) if isinstance(cls, ast.ClassDef) and cls.name == "FileDatastore"
+             for f in cls.body if isinstance(f, ast.FunctionDef)}
+    helper_uses = 0
+    for fname in ("_determine_put_formatter_location", "_calculate_ingested_datastore_name"):
+        if fname not in fdfns:
+            raise Untranslatable(f"FileDatastore.{fname} not found")
+        direct = sum(1 for n in ast.walk(fdfns[fname]) if isinstance(n, ast.Call) and isinstance(n.func, ast.Attribute)
+                     and n.func.attr == "fromPath" and n.args and isinstance(n.args[0], ast.Call)
+                     and isinstance(n.args[0].func, ast.Attribute) and n.args[0].func.attr == "format")
+        via = sum(1 for n in ast.walk(fdfns[fname]) if isinstance(n, ast.Call) and isinstance(n.func, ast.Attribute)
+                  and n.func.attr == "_location_from_template")
+        if direct + via != 1:
+            raise Untranslatable(f"{fname}: expected exactly one template-driven location, found {direct} direct + {via} via helper")
+        helper_uses += via
+    expected_sites = (2 - helper_uses) + (1 if "_location_from_template" in fdfns else 0)
+    if len(sites) != expected_sites:
+        raise Untranslatable(f"expected {expected_sites} template-driven fromPath sites in fileDatastore.py, found {len(sites)}")
+    wflag = wflag and helper_uses == 2
     ltree = ast.parse((PKG / "_location.py").read_text())
     init = None
     for cls in ast.walk(ltree):
@@ -137,7 +156,42 @@ def translate_location_check():
                               "   Do not edit, do not commit. *)\n"
                               f"Definition GEN_LOCATION_CHECKED : bool := {'true' if flag else 'false'}.\n"
                               f"Definition GEN_RECORD_CHECKED : bool := {'true' if rflag else 'false'}.\n"
-                              f"Definition GEN_INGEST_CHECKED : bool := {'true' if iflag else 'false'}.\n"}
+                              f"Definition GEN_INGEST_CHECKED : bool := {'true' if iflag else 'false'}.\n"
+                              f"Definition GEN_WRITE_RULE : bool := {'true' if wflag else 'false'}.\n"}
+
+
+def _write_rule(tree) -> bool:
+    """a79f022: FileDatastore._location_from_template exists and (1) builds `location` untrusted from template.format(ref),
+    (2) builds a second location untrusted from `location.pathInStore.path`, (3) raises under an `if` that compares the two
+    `.uri` with `!=`, (4) returns `location`.  Absent helper = False (the code before); a helper of another shape raises."""
+    helper = None
+    for cls in ast.walk(tree):
+        if isinstance(cls, ast.ClassDef) and cls.name == "FileDatastore":
+            helper = next((f for f in cls.body if isinstance(f, ast.FunctionDef) and f.name == "_location_from_template"), None)
+    if helper is None:
+        return False
+    calls = [n for n in ast.walk(helper) if isinstance(n, ast.Call) and isinstance(n.func, ast.Attribute) and n.func.attr == "fromPath"]
+    if len(calls) != 2:
+        raise Untranslatable(f"_location_from_template: expected 2 fromPath calls, found {len(calls)}")
+    for c in calls:
+        tp = {k.arg: k.value for k in c.keywords}.get("trusted_path")
+        if tp is not None and not (isinstance(tp, ast.Constant) and tp.value is False):
+            return False
+    args = sorted(ast.unparse(c.args[0]) for c in calls if c.args)
+    if args != ["location.pathInStore.path", "template.format(ref)"]:
+        raise Untranslatable(f"_location_from_template: unexpected fromPath arguments {args}")
+    compared = False
+    for n in ast.walk(helper):
+        if isinstance(n, ast.If) and any(isinstance(r, ast.Raise) for r in ast.walk(n)):
+            t = n.test
+            if (isinstance(t, ast.Compare) and len(t.ops) == 1 and isinstance(t.ops[0], ast.NotEq)
+                    and sorted([ast.unparse(t.left), ast.unparse(t.comparators[0])]) == ["location.uri", "recorded.uri"]):
+                compared = True
+    rets = [n for n in ast.walk(helper) if isinstance(n, ast.Return)]
+    if not (len(rets) == 1 and ast.unparse(rets[0].value) == "location"):
+        raise Untranslatable("_location_from_template: does not return `location`")
+    names = {t.id for n in ast.walk(helper) if isinstance(n, ast.Assign) for t in n.targets if isinstance(t, ast.Name)}
+    return compared and {"location", "recorded"} <= names
 
 
 def _ingest_checked(tree) -> bool:
